@@ -46,10 +46,14 @@ def env_for(b, variant=""):
     e["PYTHONPATH"] = ":".join(pp + [os.path.join(VERIF, "py")])
     e.pop("PYTHONHOME", None)
     if variant == "asan":
-        e["LD_PRELOAD"] = subprocess.check_output(["gcc", "-print-file-name=libasan.so"], text=True).strip()
+        # libstdc++ must be preloaded too: stock CPython does not link it, and ASan's __cxa_throw interceptor aborts
+        # ("real___cxa_throw != 0") on the first C++ exception if it cannot find the real symbol at start-up
+        e["LD_PRELOAD"] = (subprocess.check_output(["gcc", "-print-file-name=libasan.so"], text=True).strip() + ":" +
+                           subprocess.check_output(["gcc", "-print-file-name=libstdc++.so.6"], text=True).strip())
         e["ASAN_OPTIONS"] = "detect_leaks=0:halt_on_error=1:abort_on_error=1"
     if variant == "tsan":
-        e["LD_PRELOAD"] = subprocess.check_output(["gcc", "-print-file-name=libtsan.so"], text=True).strip()
+        e["LD_PRELOAD"] = (subprocess.check_output(["gcc", "-print-file-name=libtsan.so"], text=True).strip() + ":" +
+                           subprocess.check_output(["gcc", "-print-file-name=libstdc++.so.6"], text=True).strip())
         for f in glob.glob(os.path.join(b, "tsan-log*")):
             os.remove(f)
         e["TSAN_OPTIONS"] = "halt_on_error=0:report_signal_unsafe=0:log_path=" + os.path.join(b, "tsan-log")
